@@ -4,3 +4,8 @@ import PqVerif.Props.C08
 #print axioms Pq.C08.kraus_psd
 #print axioms Pq.C08.unitary_preserves_norm
 #print axioms Pq.C08.contraction_norm_le
+#print axioms Pq.C08.attenuator_kraus_form
+#print axioms Pq.C08.attenuator_kraus_complete
+#print axioms Pq.C08.attenuator_keeps_physical
+#print axioms Pq.C08.gaussian_channel_keeps_uncertainty
+#print axioms Pq.C08.gaussian_channel_code_condition_wrong
